@@ -17,7 +17,7 @@ BASE_W = {
     "spawn": 10, "gate": 22, "gate_x": 2, "gate_c": 1, "run": 14, "idle": 8,
     "cancel": 5, "cancel_group": 4, "cancel_all": 1, "stop": 3,
     "flush": 4, "gather": 1, "until_closed": 1, "lock": 1, "unlock": 1, "bad_spawn": 1,
-    "read": 1,
+    "read": 1, "new_pool": 0.2,
 }
 
 # per-property emphasis (multipliers on BASE_W) and knobs
@@ -32,7 +32,7 @@ PROFILES = {
     "C08": {"w": {"gather": 6.0, "until_closed": 4.0, "cancel_group": 1.5, "spawn": 1.3}},
     "C09": {"w": {"bad_spawn": 14.0, "lock": 5.0, "unlock": 4.0, "gather": 3.0, "spawn": 1.3}},
     "C10": {"w": {"spawn": 2.0, "cancel_group": 3.0, "cancel_all": 1.5}, "named": 0.5},
-    "C11": {"w": {"spawn": 2.0, "flush": 2.0}, "pools": [1, 2, 2, 3]},
+    "C11": {"w": {"spawn": 2.0, "flush": 2.0, "new_pool": 12.0, "gather": 4.0}, "pools": [1, 2, 2, 3]},
     "C12": {"w": {"gate_x": 5.0, "gate_c": 4.0, "flush": 2.5, "gather": 3.0}, "cb": [None, "s", "sx", "ax", "gx", "a"], "fail": 0.4, "endx": 0.3},
     "C13": {"w": {"flush": 7.0, "cancel": 2.0, "cancel_group": 1.5}, "cb": ["g", "g", "a", "s", None, "gx"]},
     "C14": {"w": {"stop": 8.0, "cancel": 2.0, "spawn": 1.5}, "simple": 1.0},
@@ -113,7 +113,7 @@ class Gen:
             k = rng.choices(kinds, [self.w[x] for x in kinds])[0]
             st = getattr(self, "_g_" + k)(sim)
             if st is not None:
-                if self.reentrant and st["op"] not in ("run", "idle", "gate", "read") and rng.random() < self.reentrant:
+                if self.reentrant and st["op"] not in ("run", "idle", "gate", "read", "new_pool") and rng.random() < self.reentrant:
                     st["at"] = [rng.choice(POINTS), rng.choice([1, 1, 2, 3])]
                 return st
         return {"op": "run", "n": 1}
@@ -127,6 +127,19 @@ class Gen:
 
     def _g_idle(self, sim):
         return {"op": "idle"}
+
+    def _g_new_pool(self, sim):
+        rng = self.rng
+        if len(sim.pools) >= 5:
+            return None
+        cls = "S" if rng.random() < 0.3 else "T"
+        p = {"cls": cls, "size": rng.choice(SIZES)}
+        if rng.random() < 0.25:
+            p["name"] = "late" + str(len(sim.pools))
+        if cls == "S":
+            p.update({"fk": "sync", "fn": rng.randrange(3), "ash": rng.randrange(4), "ecb": rng.choice(CB_KINDS_SAFE),
+                      "ccb": rng.choice(CB_KINDS_SAFE), "sc": [self._script()]})
+        return {"op": "new_pool", "cfg": p}
 
     def _g_read(self, sim):
         return {"op": "read"}
@@ -161,7 +174,8 @@ class Gen:
         else:
             n = rng.choice([0, 1, 2, 3, 4, 5, 7, 10])
             badp = rng.choice([0.0, 0.0, 0.15, 0.3]) if kind != "map" else 0.0
-            st["elems"] = [1 if rng.random() < badp else 0 for _ in range(n)]
+            emptyp = rng.choice([0.0, 0.0, 0.2])
+            st["elems"] = [1 if rng.random() < badp else (2 if rng.random() < emptyp else 0) for _ in range(n)]
             st["nc"] = rng.choice([1, 1, 2, 2, 3, 5])
             if st["fk"] == "sync" and rng.random() < self.fail_rate and n:
                 st["fail"] = sorted(rng.sample(range(n), min(n, rng.choice([1, 2]))))
